@@ -17,6 +17,7 @@ mod pt;
 mod rng;
 mod ser;
 mod trk;
+mod trn;
 mod val;
 
 use crate::cases::Case;
@@ -112,7 +113,7 @@ fn find_same(ctx: &Ctx, key: &str) -> Option<Violation> {
 
 /// Greedy delta-debugging over the world's shrink candidates; a candidate is kept only if the same
 /// monitor clause still fires. Bounded number of re-executions.
-fn minimise(case: &Case, v: &Violation, budget: usize) -> (Case, Violation, usize) {
+fn minimise(case: &Case, v: &Violation, budget: usize, ff: &findings::FindingsFile) -> (Case, Violation, usize) {
     let key = v.key();
     let mut cur = case.clone();
     let mut cur_v = v.clone();
@@ -128,7 +129,8 @@ fn minimise(case: &Case, v: &Violation, budget: usize) -> (Case, Violation, usiz
             }
             used += 1;
             if let Some(ctx) = run_case(&c, Duration::from_secs(60)) {
-                if let Some(v2) = find_same(&ctx, &key) {
+                // same clause, and it must not turn into an instance of an open known finding on the way down
+                if let Some(v2) = find_same(&ctx, &key).filter(|v2| findings::match_open(ff, v2).is_none()) {
                     cur = c;
                     cur_v = v2;
                     continue 'outer;
@@ -207,7 +209,7 @@ fn worker(prop: &str, tier: Tier, seed: u64, start: u64, end: u64) {
         }
         let mut rng = rng::Rng::new(rng::run_seed(seed, prop, i));
         let case = cases::generate(prop, &mut rng, tier == Tier::Thorough);
-        let ctx = match run_case(&case, Duration::from_secs(90)) {
+        let ctx = match run_case(&case, Duration::from_secs(cases::run_timeout_s(prop))) {
             Some(c) => c,
             None => {
                 let mut o = out.lock();
@@ -257,7 +259,7 @@ fn worker(prop: &str, tier: Tier, seed: u64, start: u64, end: u64) {
                 let _ = writeln!(o, "W {}", serde_json::json!({"run": i, "key": key}));
                 continue;
             }
-            let (mc, mv, used) = minimise(&case, v, 200);
+            let (mc, mv, used) = minimise(&case, v, 200, &ff);
             part.minimise_execs += used as u64;
             // replay the minimised case once more: it must fail the same way
             let again = run_case(&mc, Duration::from_secs(90)).and_then(|c| find_same(&c, &key));
@@ -586,6 +588,12 @@ fn replay_file(path: &str, verbose: bool) -> ReplayOutcome {
         return ReplayOutcome::Reproduced(Violation { monitor: "hang".into(), ..rf.violation.clone() });
     };
     if verbose {
+        for (k, n) in &ctx.counters {
+            println!("  counter {k} = {n}");
+        }
+        for (k, n) in &ctx.dyn_counters {
+            println!("  note {k} = {n}");
+        }
         for v in &ctx.viol {
             println!("  observed: {} {} / {} @event {} [{}]: {}", v.property, v.monitor, v.clause, v.event, v.layer, v.detail);
         }
@@ -714,6 +722,17 @@ fn main() {
                     2
                 }
             }
+        }
+        "dump" => {
+            // altsim dump <Cxx> <run> [thorough]: materialise one generated case as a replay file (debugging aid)
+            let prop = args.get(2).cloned().unwrap_or_default();
+            let run: u64 = args.get(3).and_then(|s| s.parse().ok()).unwrap_or(0);
+            let thorough = args.get(4).map(|s| s == "thorough").unwrap_or(false);
+            let mut rng = rng::Rng::new(rng::run_seed(verif_seed(), &prop, run));
+            let case = cases::generate(&prop, &mut rng, thorough);
+            let rf = ReplayFile { property: prop.clone(), verif_seed: verif_seed(), run, violation: Violation { property: prop.clone(), monitor: "dump".into(), clause: "dump".into(), layer: "".into(), event: 0, detail: "".into(), sig: Sig::new() }, minimised_from_size: None, case };
+            println!("{}", write_replay(&rf));
+            0
         }
         "selftest" => match args.get(2).map(|s| s.as_str()) {
             Some("hashseed") => {
